@@ -8,7 +8,7 @@ b = vrun.build()
 os.makedirs(vrun.GEN_DIR, exist_ok=True)
 gen = os.path.join(vrun.GEN_DIR, 'fastqr_dev.rs')
 open(gen, 'w').write(b['text'])
-cmd = ['verus', gen, '--triggers-mode', 'silent', '--multiple-errors', '10', '--num-threads', '16', '--time'] + extra
+cmd = ['verus', gen, '--triggers-mode', 'silent', '--multiple-errors', '10', '--num-threads', '16', '--time', '--rlimit', '60'] + extra
 for m in mods:
     cmd += ['--verify-module', m]
 t = time.time()
